@@ -752,7 +752,8 @@ def gen(rng, tier):
     P = lambda b: "parse " + hexs(b)
     # --- single instants: split / fmt / rt / inst, incl. milliseconds and the limits of the range
     edge = [MS_MIN, MS_MIN + 1, MS_MAX, MS_MAX - 999, 0, -1, -1000, 999, 86399999, -86400000, 951782400000, 4107542399999,
-            day_of(1904, 1, 1) * 86400000, day_of(1904, 1, 1) * 86400000 - 1, day_of(2099, 12, 31) * 86400000 + 86399999, day_of(2100, 1, 1) * 86400000,
+            day_of(1904, 1, 1) * 86400000, day_of(1904, 1, 1) * 86400000 - 1, day_of(1904, 1, 2) * 86400000, day_of(1904, 1, 2) * 86400000 - 1,
+            day_of(2098, 12, 31) * 86400000 + 86399999, day_of(2099, 1, 1) * 86400000, day_of(2099, 12, 31) * 86400000 + 86399999, day_of(2100, 1, 1) * 86400000,
             day_of(1903, 12, 31) * 86400000, day_of(2100, 3, 1) * 86400000, day_of(1900, 2, 28) * 86400000 + 86399999, day_of(1900, 3, 1) * 86400000]
     for ms in edge + [rand_ms(rng) for _ in range(4000 if big else 600)]:
         cases.append(["inst %d" % ms, "split %d" % ms] + ["fmt %d %d" % (k, ms) for k in range(5)] + ["rt %d %d" % (k, ms) for k in (0, 1, 3, 4)])
@@ -920,8 +921,8 @@ def distribution(cases):
 # ---------------------------------------------------------------- exhaustive scans (run from extra(): own batching + exact bisection)
 
 SPECIAL_DAYS = [(1, 1, 1), (1, 12, 31), (4, 2, 29), (100, 2, 28), (100, 3, 1), (400, 2, 29), (1582, 10, 15), (1600, 2, 29), (1700, 2, 28), (1700, 3, 1),
-                (1899, 12, 31), (1900, 1, 1), (1900, 2, 28), (1900, 3, 1), (1903, 12, 31), (1904, 1, 1), (1904, 2, 29), (1969, 12, 31), (1970, 1, 1),
-                (1999, 12, 31), (2000, 1, 1), (2000, 2, 29), (2000, 12, 31), (2038, 1, 19), (2096, 2, 29), (2099, 12, 31), (2100, 1, 1), (2100, 2, 28),
+                (1899, 12, 31), (1900, 1, 1), (1900, 2, 28), (1900, 3, 1), (1903, 12, 31), (1904, 1, 1), (1904, 1, 2), (1904, 2, 29), (1969, 12, 31), (1970, 1, 1),
+                (1999, 12, 31), (2000, 1, 1), (2000, 2, 29), (2000, 12, 31), (2038, 1, 19), (2096, 2, 29), (2098, 12, 31), (2099, 1, 1), (2099, 12, 31), (2100, 1, 1), (2100, 2, 28),
                 (2100, 3, 1), (2400, 2, 29), (2400, 12, 31), (4000, 2, 29), (8000, 2, 29), (9999, 1, 1), (9999, 12, 31), (9600, 2, 29), (9900, 2, 28), (9900, 3, 1)]
 
 
@@ -1073,5 +1074,21 @@ ASSUMPTIONS = ["IEEE-754 double steps abstracted by the model and exercised exha
                "TZ=UTC in the harness: strings without zone designator and the format-driven parser use the local zone, whose offset is then 0",
                "vsnprintf(\"%04i\"/\"%02i\"/\"%03i\") prints zero-padded decimals; String::split() yields the maximal runs of non-space bytes (C03)",
                "libc atoi = (int)strtol: optional space, sign, digits, saturating at the 64-bit long range"]
-LEVEL_TEXT = "WORK IN PROGRESS"
-LEVEL_NOTE = "WORK IN PROGRESS"
+LEVEL_TEXT = ("Proved in Lean 4 (no bound on the year unless stated): the leap-year macro is the Gregorian rule and timeFromYearAsDays is the unique "
+              "function that is 0 at 1970 and grows by each year's length (all integer years); month_days is the cumulative sum of the month lengths; "
+              "yearFromTime (regenerated from the C source by a clang-AST translator on every run) returns y for every day of every year y >= 0 "
+              "(year_of_day, incl. the 1904-2099 fast path and the 400/100/4-year block edges) and always brackets its day; splitUTC yields the calendar "
+              "fields, h/m/s and weekday (4+day) mod 7 of every instant from 0000-01-01 on (calc_is_calendar); Date(UTC, fields) o splitUTC = id to the "
+              "second and splitUTC o Date(UTC, fields) = id on every valid field tuple (construct_calc, calc_construct, fields_bijection); "
+              "parse(format) = instant for the LONG, SHORT and (to the millisecond) FULL formats for every instant of years 0..9999; an ISO string with "
+              "offset +-hh:mm, +-hhmm or +-hh denotes local -+ offset for every two-digit hh, mm; Date(String) and Date(String, fmt) never read beyond "
+              "the terminator and return invalid or a value, for every byte string (parse_total, parse_fmt_total). Tie to the code: yearFromTime, the "
+              "macros and all tables are regenerated into Lean from src/Date.cpp (G); calc/construct/format/parsers are hand transcriptions compared "
+              "with the real library (K) on every generated input, and the library is compared with an independent days-from-civil oracle on every "
+              "day of years 1..9999 at three times of day (thorough) and every second of sampled days.")
+LEVEL_NOTE = ("Partial: format_parse_full (all four formats) is proved without the HTTP format (format_parse_partial); the HTTP round trip, the "
+              "agreement with Hinnant's days_from_civil and the ISO round trips with fraction + offset combined are validated by K and the harness "
+              "oracle only. Not in the proof: the double arithmetic of Date (floor(t/86400), fractional-day h/m/s extraction, millisecond rounding, "
+              "pow(10,1-i)) is abstracted to exact integer milliseconds and checked by the exhaustive scan; int overflow for years beyond +-5.8e6 "
+              "(365*(y-1970)) is outside the model and not generated; local-time paths run with TZ=UTC. Trusted: Lean kernel, the clang-AST/regex "
+              "translator in tools/props/c19.py, harness/c19.cpp. One defect found and repaired: Date(str, fmt) read past the end of str (repo commit 2de0295).")
